@@ -10,7 +10,7 @@ def parseVals (toks : List String) : Array BV4 := (toks.map BV4.ofString).toArra
 
 def resetCase (s : St) (id mode : String) : St :=
   { s with caseId := id, mode := mode, vals := #[], net := #[], netTy := #[], netName := #[], xo := #[], env := #[], stim := "",
-           cycle := 0, ctEval := none, xvHist := #[], runIsAbs := true, absSeqNv := #[], absSeqXv := #[],
+           cycle := 0, ctEval := none, xvHist := #[], blit := none, regInit := #[], runIsAbs := true, absSeqNv := #[], absSeqXv := #[],
            implNv := #[], absNv := #[], absXv := #[], haveAbs := false, unsafeReason := "", litStr := "", cases := s.cases + 1 }
 
 /-- `v <k> <op> a<i>… <num>… [str] -> <t> <w> <p>` | `… -> e` -/
@@ -20,7 +20,8 @@ def parseValLine (toks : List String) : ValRec := Id.run do
   let res := (toks.dropWhile (· != "->")).drop 1
   r := { r with op := body.getD 0 "" }
   if r.op == "pin" ∨ r.op == "lit" ∨ r.op == "regq" then
-    r := { r with spar := body.getD 3 "" }
+    -- `pin <t> <w>` / `lit <t> <w> <bits>` / `regq <i> <w>`: what was requested
+    r := { r with spar := body.getD 3 "", reqTy := if r.op == "regq" then 'u' else (body.getD 1 "?").toList.getD 0 '?', reqW := (body.getD 2 "0").toNat! }
   else
     for t in body.drop 1 do
       if t.startsWith "a" ∧ (t.drop 1).all Char.isDigit ∧ t.length > 1 then r := { r with args := r.args ++ [(t.drop 1).toString.toNat!] }
@@ -54,7 +55,7 @@ def checkCompat (s : St) (what : String) (names : Nat → String) (abs conc : Ar
 
 def nodeKindName (s : St) (i : Nat) : String :=
   match (s.net.getD i ⟨.signal, 0, []⟩).kind with
-  | .input _ => "kind=in" | .signal => "kind=sig"
+  | .input _ => "kind=in" | .signal => "kind=sig" | .tristate _ => "kind=tristate"
   | .node k _ => match k with
     | .logic _ => "kind=logic" | .arith _ => "kind=arith" | .compare _ _ => "kind=compare" | .shift _ _ => "kind=shift"
     | .rewire _ => "kind=rewire" | .mux => "kind=mux" | .prio => "kind=prio" | .const _ => "kind=const"
@@ -67,6 +68,9 @@ def step (s : St) (line : String) : St :=
   | "case" :: id :: mode :: _ => resetCase s id mode
   | "v" :: k :: rest =>
     let r := parseValLine rest
+    -- model and definition use the policy the frontend rules give; the reported one is compared with it (checkShapes)
+    let r := { r with polRep := r.pol }
+    let r := { r with pol := derivedPol s.vals r }
     let idx := k.toNat!
     let vals := if idx == s.vals.size then s.vals.push r else s.vals
     { s with vals := vals }
@@ -111,7 +115,20 @@ def step (s : St) (line : String) : St :=
   | "stim" :: k :: _ => { s with stim := k, haveAbs := false, stims := s.stims + 1, runIsAbs := true, absSeqNv := #[], absSeqXv := #[] }
   | "stimc" :: k :: _ => { s with stim := k, stims := s.stims + 1, runIsAbs := false }
   | ["cyc", t] => { s with cycle := t.toNat!, stims := s.stims + 1 }
-  | "reg" :: _ => s
+  | "reg" :: _ :: q :: _ :: rst :: _ =>
+    -- `reg i q=a<k> data=… rst=<bits|-> en=…`: the power-on content is the reset value, all undefined without one
+    -- (`Node_Register::simulatePowerOn` → `writeResetValueTo(…, clearDefinedIfUnconnected = true)`)
+    let w := (s.vals.getD ((q.drop 3).toString.toNat!) {}).w
+    let rv := (rst.drop 4).toString
+    { s with regInit := s.regInit.push (if rv == "-" then BV4.undef w else BV4.ofString rv) }
+  | ["reginit", i, bits] =>
+    let want := s.regInit.getD i.toNat! []
+    if BV4.ofString bits != want then
+      s.propfail s!"stim={s.stim} kind=reg class=register-power-on-content reg={i} expected={BV4.toString want} impl={bits}: after powerOn a register holds its reset value, or nothing defined without one"
+    else s
+  | ["regset", i, bits] =>
+    let want := s.regInit.getD i.toNat! []
+    if !BV4.leB want (BV4.ofString bits) then s.diff s!"kind=harness regset {i} {bits} is not a concretisation of {BV4.toString want}" else s
   | ["cteval", k] => { s with ctEval := if k == "done" then none else some k.toNat! }
   | ["pv", k, bits] => { s with env := s.env.setIfInBounds k.toNat! (BV4.ofString bits) }
   | "nv" :: rest => { s with implNv := parseVals rest }
@@ -135,7 +152,7 @@ def step (s : St) (line : String) : St :=
       s := { s with postValues := s.postValues + 1 }
       let r := s.vals[j]!
       if !agrees j ∧ r.args.all agrees then
-        let a := argsOf s pre r
+        let a := argsOf s pre r j
         s := s.propfail s!"stim={k} val={j} op={opBase r.op} class=post-processed/{shapeClass r.op a r.params} full={r.op} params={r.params} args=[{showArgs a}] as-constructed={BV4.toString (pre.getD j [])} post-processed={c}: the design evaluates differently after design.postprocess()"
     return s
   | "xv" :: rest =>
@@ -192,7 +209,7 @@ def step (s : St) (line : String) : St :=
       -- report the innermost expression only: an operand that already differs explains the difference
       let argsAgree := r.args.all fun j => rest.getD j "?" == BV4.toString (s.absXv.getD j [])
       if c != rt ∧ argsAgree then
-        let a := argsOf s s.absXv r
+        let a := argsOf s s.absXv r k
         -- how the two evaluations relate: the construction-time evaluation threw, or is a refinement of / refined by / in
         -- contradiction with the run-time value
         let rtv := s.absXv.getD k []
@@ -203,8 +220,20 @@ def step (s : St) (line : String) : St :=
         s := s.propfail s!"val={k} op={opBase r.op} class=construction-time-vs-run-time/{shapeClass r.op a r.params}/{rel} full={r.op} params={r.params} construction={c.take 200} runtime={rt}"
     return s
   | "lit" :: rest => { s with litStr := " ".intercalate rest, ops := s.ops + 1, opHist := bump s.opHist "literal" }
+  | ["blit", code] => { s with blit := some code.toNat!, ops := s.ops + 1, opHist := bump s.opHist "bit-literal" }
   | ["->", r] => Id.run do
     let mut s := s
+    if let some code := s.blit then
+      -- Bit(char)
+      let c := Char.ofNat code
+      s := { s with blit := none, feEvals := s.feEvals + 1, specChecks := s.specChecks + 1 }
+      let feS := match parseBit c with | .ok v => BV4.toString v | .error _ => "e"
+      if feS != r then s := s.diff s!"kind=fe op=bit-literal char={code} model={feS} impl={r}"
+      let cls := if c == 'x' ∨ c == 'X' then "undefined-char" else if c == '0' ∨ c == '1' then "digit" else "other-char"
+      match Spec.bitLiteral c with
+      | none => if r != "e" then s := s.propfail s!"op=bit-literal class={cls}/accepted-illformed char={code} impl={r}"
+      | some v => if BV4.toString v != r then s := s.propfail s!"op=bit-literal class={cls}/value char={code} impl={r} spec={BV4.toString v}"
+      return s
     let fe := parseBitVector s.litStr
     let sp := Spec.literal s.litStr
     s := { s with feEvals := s.feEvals + 1, specChecks := s.specChecks + 1 }
